@@ -137,8 +137,9 @@ struct Ctx {
     double elapsed() const {
         return std::chrono::duration<double>(std::chrono::steady_clock::now() - t0).count();
     }
+    uint64_t deadline_polls = 0;   // per-shard counter (caseno advances for foreign cases too: with 16 shards only one of them would ever poll)
     bool out_of_time() {
-        if (!expired && (caseno & 63) == 0 && elapsed() > deadline_s) {
+        if (!expired && (++deadline_polls & 63) == 0 && elapsed() > deadline_s) {
             expired = true;
             caps.insert("deadline");
         }
